@@ -36,7 +36,7 @@ struct St {
 /// A: single-stepped conservation across a frame boundary
 fn conservation(ctx: &Ctx, rng: &mut Rng, is128: bool, st: &mut St, case: u64) {
     let mut m = Machine::new(Cfg::of(is128));
-    let mut md = Model { is128, bank: 0 };
+    let mut md = Model { is128, bank: 0, locked_cases: 0 };
     if is128 {
         let v = rng.below(8) as u8 | (rng.below(2) as u8) << 4;
         m.out(0x7FFD, v);
